@@ -45,7 +45,11 @@ Definition rev_parse_candidates (name : bytes) : list bytes :=
 (* one rule: a loose file at that path of the git dir, else a packed record of that name *)
 Definition resolve_one (files : list file) (packed : list prec) (full : bytes) : option item :=
   match lookup_file files full with
-  | Some c => Some (convert_loose (split_slash full, c))
+  | Some c =>
+      Some (match parse_loose c with
+            | Some t => inl {| rname := full; rtarget := t; rpeeled := None |}
+            | None => inr (ReferenceCreation full)
+            end)
   | None => option_map convert_packed (packed_find packed full)
   end.
 
